@@ -510,8 +510,8 @@ func (obj *DenseReal32VectorJointIterator) Index() int {
   return obj.idx
 }
 func (obj *DenseReal32VectorJointIterator) Ok() bool {
-  return !(obj.s1 == nil || obj.s1.GetFloat32() == 0.0) ||
-         !(obj.s2 == nil || obj.s2.GetFloat32() == 0.0)
+  return !(obj.s1 == nil || isNullScalar(obj.s1)) ||
+         !(obj.s2 == nil || isNullScalar(obj.s2))
 }
 func (obj *DenseReal32VectorJointIterator) Next() {
 next:
